@@ -20,12 +20,13 @@ TRUSTED = ["hand-written Gallina model coq/Model/Ecdsa.v of src/ecdsa/{sign,veri
            "Signature::verify_message (tied by this correspondence run)",
            "coq/Prim/Secp256k1.v, Prim/Rfc6979.v as transcriptions of k256 0.10.4 / rfc6979 0.1.0 / elliptic-curve 0.11 "
            "(tied by this run; anchored by published secp256k1 / RFC 6979 known answers proved by vm_compute)",
-           "GROUP HYPOTHESES (premise `secp256k1_group` of the verification / ECDH / recovery theorems, Proofs/EcdsaSecp.v): on the set "
-           "of valid points (on-curve, coordinates in [0,p)) the formulas padd/pneg/smul of Prim/Secp256k1.v are closed, padd is "
-           "associative and commutative with identity None and inverse pneg, smul is the Z-action (smul (a+b) P = padd (smul a P) "
-           "(smul b P), smul (a*b) P = smul a (smul b P), smul 1 P = P), smul n G = None (that n is prime - every 0<a<n is invertible - is no longer a hypothesis: Proofs/SecpPrimes.v proves it from a Pratt certificate checked inside Coq), "
-           "and for recovery: lift_x (xcoord P) (yodd P) = Some P and yodd (pneg P) = negb (yodd P) for valid P <> None, "
-           "smul a G = None -> a mod n = 0",
+           "GROUP HYPOTHESES (premise `secp256k1_group` of the verification / ECDH / recovery theorems, Proofs/EcdsaSecp.v), three "
+           "statements about the valid points (on-curve, coordinates in [0,p)) of Prim/Secp256k1.v: padd is "
+           "associative; smul (a+b) P = padd (smul a P) (smul b P); smul (a*b) P = smul a (smul b P).  No longer hypotheses, "
+           "PROVED for the concrete formulas in Proofs/SecpGroupPartial.v: closure of padd, pneg and smul, commutativity of padd, "
+           "padd P (pneg P) = None, smul 1 P = P, yodd (pneg P) = negb (yodd P) (no curve point has y = 0: -7 is not a cube mod p), "
+           "lift_x (xcoord P) (yodd P) = Some P, and smul a G = None -> a mod n = 0 (from the two scalar laws, n*G = None by evaluation "
+           "and n prime); p and n prime: Proofs/SecpPrimes.v (Pratt certificates checked inside Coq)",
            "execution runs the BigZ instance (Uint63 primitives); Proofs/Secp256k1Refine.v proves it equal to the Z instance"]
 ASSUMPTIONS = ["'fails to verify for a different message, hash choice or key' is only sampled (it needs collision resistance of SHA-256 "
                "and the discrete-log structure of the group): ops ecdsa.sign_verify with another key / message / hash / negated key, and "
